@@ -16,6 +16,7 @@ if os.environ.get('VP_SEED_SCRATCH'):
     subprocess.run(['git', 'init', '-q'], cwd=scratch)
     r = subprocess.run(['git', 'apply', patch], cwd=scratch)
     env['VP_REPO'] = scratch
+    env['VP_EVIDENCE_DIR'] = os.path.join(scratch, '.vp_evidence')
 else:
     r = subprocess.run(['git', '-C', '/repo', 'apply', patch])
 if r.returncode != 0:
